@@ -157,9 +157,15 @@ func Walk(v Visitor, node ast.Node) {
 
 	case *ast.FuncType:
 		for _, param := range n.Parameters {
+			if param.Ident != nil {
+				Walk(v, param.Ident)
+			}
 			Walk(v, param.Type)
 		}
 		for _, res := range n.Result {
+			if res.Ident != nil {
+				Walk(v, res.Ident)
+			}
 			Walk(v, res.Type)
 		}
 
